@@ -184,7 +184,10 @@ class Stream(meta(Iterable, metaclass=StreamMeta)):
 
     else:
       if all(isinstance(arg, Iterable) for arg in dargs):
-        self._data = it.chain(*dargs)
+        # Gets every iterator now, as done for a single input: a StreamTeeHub
+        # gives one of its copies to this Stream when it's created, not when
+        # the data before it is finished ("it.chain" calls "iter" lazily)
+        self._data = it.chain(*[iter(arg) for arg in dargs])
       elif not any(isinstance(arg, Iterable) for arg in dargs):
         self._data = it.cycle(dargs)
       else:
